@@ -46,27 +46,27 @@ def observe (t : T) (withSpec : Bool) : J :=
          ("dist", J.arr (d.map fun e => J.arr [J.str e.1.1, J.str e.1.2, J.ofRat e.2])),
          ("spec", J.arr spec)]
 
-def applyOp (fixed : Bool) (t : T) (op : J) : Except String (Except TErr T) := do
+def applyOp (t : T) (op : J) : Except String (Except TErr T) := do
   match ← op.toList with
   | [J.str "rooted_at", n] => pure (rootedAt t (← n.toStr))
   | [J.str "rooted_with_tip", n] => pure (rootedWithTip t (← n.toStr))
   | [J.str "reroot_path", p] =>
     let path ← p.toListOf J.toNat
     pure (match rerootAt t path with | some r => .ok r | none => .error .treeError)
-  | [J.str "unrooted"] => pure (.ok (unrootedWith fixed t))
+  | [J.str "unrooted"] => pure (.ok (unrooted t))
   | [J.str "copy"] => pure (.ok t)
   | [J.str "sorted", o] => pure (.ok (sorted t (← strsOfJ o)))
   | [J.str "subtree", ns, im, kr, to] =>
-    pure (getSubTree t (← strsOfJ ns) (← im.toBool) (← kr.toBool) (← to.toBool) fixed)
+    pure (getSubTree t (← strsOfJ ns) (← im.toBool) (← kr.toBool) (← to.toBool))
   | [J.str "midpoint"] => pure (rootAtMidpoint t)
   | _ => throw "bad op"
 
-def runOps (fixed withSpec : Bool) : T → List J → Except String (List J)
+def runOps (withSpec : Bool) : T → List J → Except String (List J)
   | _, [] => pure []
   | t, op :: ops => do
-    match ← applyOp fixed t op with
+    match ← applyOp t op with
     | .ok r => do
-      let rest ← runOps fixed withSpec r ops
+      let rest ← runOps withSpec r ops
       pure (observe r withSpec :: rest)
     | .error e => pure [errJ e]
 
@@ -91,8 +91,7 @@ def handle (cmd : String) (j : J) : Except String J :=
   | "ops" => do
     let t ← treeOfJ (← j.get "tree")
     let ws ← (← j.get "spec").toBool
-    let fixed := match j.get? "unrooted_fixed" with | some (J.bool b) => b | _ => false
-    let rest ← runOps fixed ws t (← (← j.get "ops").toList)
+    let rest ← runOps ws t (← (← j.get "ops").toList)
     pure (J.arr (observe t ws :: rest))
   | "newick" => do
     let t ← treeOfJ (← j.get "tree")
